@@ -20,6 +20,9 @@ type MultipartRequest struct {
 }
 
 func (s *MultipartRequest) Len() (n uint16) {
+	if s.Body == nil {
+		return s.Header.Len() + 8
+	}
 	return s.Header.Len() + 8 + s.Body.Len()
 }
 
